@@ -133,9 +133,10 @@ func evalC18SH(sigs []c18Sig, outs string) Result {
 	var mu sync.Mutex
 	var calls []int
 	var cleanup atomic.Bool
+	var svcs []service.Interface
 	for i := range outs {
 		o := outs[i]
-		h.Add(&fakeservice.Service{
+		svcs = append(svcs, &fakeservice.Service{
 			OnStart: func(_ context.Context) error { return nil },
 			OnShutdown: func(_ context.Context) error {
 				if cleanup.Load() {
@@ -153,6 +154,13 @@ func evalC18SH(sigs []c18Sig, outs string) Result {
 				return nil
 			},
 		})
+	}
+	// register in batches of 1, 2, 3, 1, 2, 3, … services per Add call: registration
+	// order is the argument order within a call and the call order between calls
+	for i, k := 0, 0; i < len(svcs); k++ {
+		n := min(1+k%3, len(svcs)-i)
+		h.Add(svcs[i : i+n]...)
+		i += n
 	}
 	retCh := make(chan int, 1)
 	go func() {
